@@ -1,9 +1,9 @@
 SPECIFICATION Spec
 CONSTANTS
-  MaxWrites = 5
-  MaxAuto = 3
-  MaxBackups = 2
-  Delta = {1, 2}
+  MaxWrites = 2
+  MaxAuto = 1
+  MaxBackups = 1
+  Delta = {1}
   GateDuringFileCopy = TRUE
   SnapshotBeforeCopy = TRUE
   DumpInOneReadTxn = TRUE
@@ -12,5 +12,5 @@ CONSTANTS
   AbortAfterPartial = TRUE
   EndMarkerOnlyOnSuccess = TRUE
   CopyErrorReturned = TRUE
-  DumpRowErrorsReturned = TRUE
-INVARIANTS TypeOK Consistent Complete CutIsError GateReleased
+  DumpRowErrorsReturned = FALSE
+INVARIANTS TypeOK Complete
